@@ -48,9 +48,11 @@ def parallel_placement_ok(prog):
             if s.kind == "query":
                 walk_op(s.op, 0, False, s)
                 reads, writes = set(), set()
-                if reads_writes(s.op, reads, writes, False) and reads & writes:
+                par = reads_writes(s.op, reads, writes, False)
+                rw = set(r for r in (reads & writes) if prog.rels[r].arity - prog.rels[r].aux > 0)   # propositions guard themselves
+                if par and rw:
                     # iterations of a PARALLEL loop must not observe each other's writes (non-interference)
-                    bad.append("PARALLEL query reads and writes %s" % sorted(reads & writes))
+                    bad.append("PARALLEL query reads and writes %s" % sorted(rw))
             elif hasattr(s, "body") and isinstance(s.body, list):
                 walk(s.body)
     for ss in prog.subs.values():
@@ -83,7 +85,13 @@ def run(tier, seed, only=None):
                 continue
             n += 1
             for b in parallel_placement_ok(prog):
-                res.violation("parallel-placement|%s|%s" % (c.name, b[:40]), "%s in RAM of %s with -j8" % (b, c.name), "")
+                import os
+                d = os.path.join(common.VERIF, "replays", PID, "placement__" + c.name)
+                os.makedirs(d, exist_ok=True)
+                open(os.path.join(d, "program.dl"), "w").write(c.text)
+                open(os.path.join(d, "ram.txt"), "w").write(prog.text)
+                open(os.path.join(d, "README"), "w").write("souffle --show=transformed-ram -j8 program.dl prints ram.txt: %s\n" % b)
+                res.violation("parallel-placement|%s|%s" % (c.name, b[:40]), "%s in RAM of %s with -j8" % (b, c.name), d)
     finally:
         common.rm_rf(work)
     res.coverage["parallel_placement_programs"] = n
